@@ -1995,7 +1995,12 @@ impl<'a> CompilerState<'a> {
                     self.functions.insert(
                         name.clone(),
                         Function {
-                            order: self.functions.len(),
+                            // A definition that follows a prototype replaces it: keep its rank, otherwise
+                            // the next function would receive the same order value
+                            order: self
+                                .functions
+                                .get(&name)
+                                .map_or(self.functions.len(), |f| f.order),
                             inline,
                             bank,
                             code: None,
@@ -2142,7 +2147,11 @@ impl<'a> CompilerState<'a> {
                         }
                         // Insert it into the global table
                         let var = Variable {
-                            order: self.variables.len(),
+                            // Same for the parameters of a function declared by a prototype first
+                            order: self
+                                .variables
+                                .get(&longname)
+                                .map_or(self.variables.len(), |v| v.order),
                             signed,
                             memory,
                             var_const,
